@@ -217,6 +217,10 @@ pub struct Gen<'a> {
     /// clean mode: canonical shapes and semantically satisfiable conditions only
     pub clean: bool,
     pub no_unknown: bool,
+    /// when set, puzzle hashes of spends are drawn from this pool (real puzzle reveals exist for them)
+    pub ph_pool: Option<Vec<Vec<u8>>>,
+    /// more AGG_SIG conditions (C05)
+    pub agg_sig_bias: bool,
 }
 
 pub const AMOUNTS: [u128; 22] = [
@@ -259,7 +263,7 @@ impl<'a> Gen<'a> {
         let mut m = consts.doms[0].clone();
         m.pop();
         msgs.push(m);
-        Gen { r, hashes, keys, bad_keys, msgs, doms: consts.doms.to_vec(), clean: false, no_unknown: false }
+        Gen { r, hashes, keys, bad_keys, msgs, doms: consts.doms.to_vec(), clean: false, no_unknown: false, ph_pool: None, agg_sig_bias: false }
     }
     fn p(&mut self, num: u32, den: u32) -> bool {
         self.r.random_range(0..den) < num
@@ -274,6 +278,13 @@ impl<'a> Gen<'a> {
     fn hash(&mut self) -> Vec<u8> {
         let h = self.hashes.clone();
         self.pick(&h)
+    }
+    /// puzzle hash of a spent coin
+    fn spend_ph(&mut self) -> Vec<u8> {
+        match self.ph_pool.clone() {
+            Some(p) => self.pick(&p),
+            None => self.hash(),
+        }
     }
     /// integer atom: canonical most of the time, otherwise an adversarial encoding
     pub fn int_atom(&mut self, vals: &[u128]) -> Sx {
@@ -361,12 +372,12 @@ pub fn gen_bundle(g: &mut Gen<'_>, max_spends: usize, max_conds: usize) -> Sx {
         let (parent, ph, amount) = if !plans.is_empty() && g.p(1, 4) {
             // ephemeral: child of an earlier spend (the parent may or may not create it)
             let j = g.r.random_range(0..plans.len());
-            (plans[j].id.clone(), g.hash(), g.pick(&[1u128, 2, 3, 0x80, 1000]))
+            (plans[j].id.clone(), g.spend_ph(), g.pick(&[1u128, 2, 3, 0x80, 1000]))
         } else if !plans.is_empty() && g.m(1, 12) {
             // duplicate of an earlier coin -> double spend
             (plans[0].parent.clone(), plans[0].ph.clone(), plans[0].amount)
         } else {
-            (g.hash(), g.hash(), amount)
+            (g.hash(), g.spend_ph(), amount)
         };
         let id = sha256(&[&parent, &ph, &enc_uint(amount)]);
         if plans.iter().any(|p| p.id == id) && g.clean {
@@ -482,7 +493,7 @@ pub fn gen_condition(
 ) -> Sx {
     let me = &plans[i];
     let op = |o: u8| Sx::A(vec![o]);
-    let choice = g.r.random_range(0..100);
+    let choice = if g.agg_sig_bias && g.p(1, 2) { 15 } else { g.r.random_range(0..100) };
     match choice {
         0..=11 => {
             // CREATE_COIN with hint shapes
